@@ -106,6 +106,41 @@ def run(ctx):
             else:
                 ctx.note('C16-R5: NOT NULL is not enforced in InsertExecutor itself (see R1 for where it is)')
 
+    R6 = 'C16-R6'
+    ctx.rule(R6, 'the static type of a multi-row VALUES list is the union over ALL rows: in analyze_type the DataType::union call inside the '
+                 'row loop takes the accumulated type as an operand (its result is stored back into that same variable); a union with '
+                 'the first row only lets a wider middle row be narrowed silently by ValuesExecutor before INSERT casts it')
+    at = prog.body('planner::rules::type_::analyze_type')
+    if ctx.anchor(R6, 'planner::rules::type_::analyze_type', at is not None):
+        ctx.functions_analysed.add(at.name)
+        un = [c for c in at.calls if (c.fn or '').endswith('DataType::union') and c.bb in at.reachable_from(at.succs[c.bb])]
+        if ctx.anchor(R6, 'analyze_type: DataType::union inside a loop', un):
+            for c in un:
+                # where does the result end up?  follow it forward through ok_or / `?` / moves to plain locals
+                acc, todo, seen = set(), [c.dest['l']], set()
+                while todo:
+                    x = todo.pop()
+                    if x in seen:
+                        continue
+                    seen.add(x)
+                    for bb, st in at.stmts():
+                        if st['s'] == 'assign' and not st['lhs']['p'] and any(pl['l'] == x for pl in __pl(st['rv'])):
+                            acc.add(st['lhs']['l'])
+                            todo.append(st['lhs']['l'])
+                    for k in at.calls:
+                        if any(a['k'] != 'const' and a['pl']['l'] == x for a in k.args) and re.search(r'ok_or(_else)?$|Try::branch$', k.fn or ''):
+                            todo.append(k.dest['l'])
+                ops_origin = set()
+                for a in c.args:
+                    if a['k'] != 'const':
+                        ops_origin |= origin_locals(at, a['pl']['l'], depth=4)
+                carried = acc & ops_origin
+                ctx.ob(R6, 'Values·union-is-accumulated', bool(carried),
+                       f'union at block {c.bb}: result stored into locals {sorted(acc)[:8]}; operands derive from {sorted(ops_origin)[:8]}; '
+                       f'loop-carried: {sorted(carried)}', [site(at, c.bb)],
+                       what='analyze_type unions every VALUES row with the first row instead of with the type accumulated so far: the list '
+                            'gets the type union(first, last) and a wider middle row is narrowed without an error')
+
     R3 = 'C16-R3'
     ctx.rule(R3, 'RowsetBuilder::new chooses the (nullable / non-nullable) block format from ColumnCatalog::is_nullable')
     rb = prog.group('storage::secondary::rowset::rowset_builder::RowsetBuilder::new')
@@ -152,3 +187,8 @@ def run(ctx):
                             'inserted into a primary-key column')
         ctx.anchor(R4, 'CreateTable { ordered_pk_ids, .. } built in bind_create_table', found_ct)
 
+
+
+def __pl(x):
+    from mir import operand_places
+    return operand_places(x)
